@@ -1503,4 +1503,59 @@ example :=
     (by intro c hc; simp at hc; rcases hc with rfl | rfl <;> rfl)
 example : remMs (p1Members 1 2 [] [(0, .atWait), (1, .atMatch)]) = [] ∧ remMs [(0, MLoc.atWait), (1, MLoc.atMatch)] ≠ [] := by decide
 
+/-- **groupvm_is_corevm_partial (one event on a pure or-group of single atoms through BOTH calls of the real `_advance_head_front`, one
+    branch matching).**  The hypotheses of `groupvm_is_corevm_partial_or_event`, exactly one branch head `uj` waits on `match e`, the flow
+    STARTED, queue empty, nothing cleared, the group followed by `CatchPatternFailure(None)` and the marker `send`.  Call 1 (event
+    handling, `[uj]`) ends in the state of `GroupVM.p1Brs` and hands `[uj]` back MERGING; call 2 (merging loop, `[uj]`) merges the group
+    and returns the forking head, the only head left, ACTIVE on the marker behind the group.  Any number of branches. -/
+theorem groupvm_is_corevm_partial_or_event_real (fuel : Nat) (s : CoreVM.VM) (f : CoreIndex.FUid) (i : CoreIndex.Inst) (x : CoreVM.InstX)
+    (cfg : CoreVM.FlowCfg) (l mu : String) (pe fp e : Nat)
+    (r : CoreIndex.HUid) (us : List (CoreIndex.HUid × Nat)) (brs : List Br) (j : Nat) (uj : CoreIndex.HUid × Nat)
+    (spec : CoreVM.Spec) (nm : String)
+    (F : CoreVM.FlowAt s f i x cfg) (hown : x.ctxOwner = none) (C : CoreVM.OrShape cfg l mu pe) (S : CoreVM.MembersShape cfg l pe us)
+    (hlen : us.length = brs.length) (hnm : CoreVM.noMulti brs = true) (hndu : (r :: us.map (·.1)).Nodup)
+    (hv : CoreVM.hview i = (r, fp, CoreIndex.HeadStatus.inactive) :: CoreVM.renderB (pe + 1) us brs)
+    (hju : us[j]? = some uj) (hjm : (p1Brs e 0 brs).1[j]? = some Br.merging)
+    (hone : ∀ j' m', (p1Brs e 0 brs).1[j']? = some m' → j' ≠ j → ∃ a, m' = Br.single a)
+    (hl1 : (p1Brs e 0 brs).1.length = brs.length)
+    (hmb : CoreVM.matchingB e us brs = [uj.1])
+    (hfu : OMap.lookup mu x.forkUids = some r)
+    (hhx : ((OMap.lookup (f, r) s.r.hx).getD {}).childHeadUids = us.map (·.1))
+    (hleaf : ∀ c ∈ us.map (·.1), ((OMap.lookup (f, c) s.r.hx).getD {}).childHeadUids = [])
+    (hmu : mu ∉ us.map (·.1)) (hfp : fp ≠ pe + 1)
+    (hstarted : i.status = .started) (hrange : ∀ o ∈ i.heads, o.pos < cfg.elements.size)
+    (hqueue : s.r.queue = []) (hclr : s.r.cleared = [])
+    (hsz4 : pe + 3 < cfg.elements.size) (hc1 : cfg.elements[pe + 2]! = .catchFail none) (hc2 : cfg.elements[pe + 3]! = .sendOp spec)
+    (hp : CoreVM.PlainSpec spec nm) (hargs : spec.args = []) (hint : CoreVM.internalEvents.contains nm = false)
+    (hcl : ((OMap.lookup (f, uj.1) s.r.hx).getD {}).catchLabels.isEmpty = false) :
+    ∃ s1 i1 s2 i2 x2, CoreVM.advanceHeadFront (fuel + 3) [(f, uj.1)] s = .ok [(f, uj.1)] s1 ∧ CoreVM.FlowAt s1 f i1 x cfg ∧
+      CoreVM.hview i1 = (r, fp, CoreIndex.HeadStatus.inactive) :: CoreVM.renderB (pe + 1) us (p1Brs e 0 brs).1 ∧
+      CoreVM.advanceHeadFront (fuel + 5) [(f, uj.1)] s1 = .ok [(f, r)] s2 ∧ CoreVM.FlowAt s2 f i2 x2 cfg ∧
+      CoreVM.hview i2 = [(r, pe + 3, CoreIndex.HeadStatus.active)] :=
+  CoreVM.or_group_event_real fuel s f i x cfg l mu pe fp e r us brs j uj spec nm F hown C S hlen hnm hndu hv hju hjm hone hl1 hmb
+    hfu hhx hleaf hmu hfp hstarted hrange hqueue hclr hsz4 hc1 hc2 hp hargs hint hcl
+
+/-- `match E0() or E1()` followed by `send Hit()`, flow STARTED, both branch heads on their match elements -/
+def exVMOrEventReal : CoreVM.VM :=
+  { ixs := exIxsStarted,
+    r := { prog := { flows := [exCfgOrHit] }, fx := [("m", exXFork)],
+           hx := [(("m", "h0"), { childHeadUids := ["h1", "h2"] }), (("m", "h2"), { catchLabels := ["f"] })] } }
+
+-- non-vacuity of `groupvm_is_corevm_partial_or_event_real`: event E1
+example :=
+  groupvm_is_corevm_partial_or_event_real 1 exVMOrEventReal "m" exInstStarted exXFork exCfgOrHit "e" "u" 14 2 1 "h0"
+    [("h1", 4), ("h2", 7)] [.single 0, .single 1] 1 ("h2", 7) (exSpec "Hit") "Hit"
+    { hi := rfl, hx := rfl, hc := rfl } rfl { hl := rfl, hsize := by decide, hm := rfl }
+    (by intro u hu; simp at hu; rcases hu with rfl | rfl <;> exact ⟨rfl, by decide⟩)
+    rfl rfl (by decide) rfl rfl rfl
+    (by
+      intro j' m' h1 h2
+      rcases j' with _ | _ | j'
+      · simp [p1Brs, p1Br] at h1; subst h1; exact ⟨0, rfl⟩
+      · exact absurd rfl h2
+      · simp [p1Brs, p1Br] at h1)
+    rfl rfl rfl rfl (by intro c hc; simp at hc; rcases hc with rfl | rfl <;> rfl) (by decide) (by decide)
+    rfl (by intro o ho; simp [exInstStarted, exInst] at ho; rcases ho with rfl | rfl | rfl <;> decide)
+    rfl rfl (by decide) rfl rfl ⟨rfl, rfl, rfl⟩ rfl (by decide) rfl
+
 end NemoVerif.C07
